@@ -10,7 +10,7 @@ import (
 
 var c09Hist = hx.Register(&hx.Check[histCase]{
 	Name: "c09-choice-history",
-	Rule: "histories of 1-8 upserts of independently drawn fragments (each selects its own cases) into schemas with several choices per container, choices nested in cases, choices inside lists, cases holding leaves / containers / lists; after every step the backing data of the store must equal the model (other cases cleared recursively, nodes outside the choice untouched) and no choice may hold data of two cases; non-trivial = at least two case switches",
+	Rule: "histories of 1-8 steps - upserts of independently drawn fragments (each selects its own cases) and SetValue on single leaves of cases - into schemas with several choices per container, choices nested in cases, choices inside lists, cases holding leaves / containers / lists; after every step the backing data of the store must equal the model (other cases cleared recursively, nodes outside the choice untouched) and no choice may hold data of two cases; non-trivial = at least two case switches",
 	Gen:  histGen("C09", []string{"rs", "rs", "reflect-map", "node-map"}),
 	Run:  histRun("C09"),
 })
